@@ -1376,8 +1376,12 @@ class AdbDeviceAsync(object):
         msg = AdbMessage(constants.WRTE, adb_info.local_id, adb_info.remote_id, filesync_info.send_buffer[:filesync_info.send_idx])
         await self._io_manager.send(msg, adb_info)
 
-        # Expect an 'OKAY' in response
-        await self._read_until([constants.OKAY], adb_info)
+        # Expect an 'OKAY' in response; the device may write (e.g., a ``FAIL`` status) before it acknowledges
+        while True:
+            cmd, data = await self._read_until([constants.OKAY, constants.WRTE], adb_info)
+            if cmd == constants.OKAY:
+                break
+            filesync_info.recv_buffer += data
 
         # Reset the send index
         filesync_info.send_idx = 0
